@@ -80,6 +80,9 @@ unsafe impl<T: Send + 'static> EventRef<T> for PooledRef<T> {
         unsafe {
             destroy_event(self.event);
         }
+
+        #[cfg(folo_verif)]
+        crate::verif::notify_release(self.event.as_ptr() as usize);
     }
 }
 
